@@ -1,4 +1,5 @@
 import Model.Broadcast
+import Model.Escape
 import Model.Layout
 import Model.Paginate
 import Model.PaginateSpec
